@@ -1,4 +1,5 @@
-"""C09 -- concurrent queues: ticket arithmetic and the ticket-claim protocols (rely/guarantee on head/tail counters)."""
+"""C09 -- concurrent queues: ticket arithmetic, the ticket-claim protocols (rely/guarantee on head/tail counters), the per-lane turnstile / page list / cells
+(micro_queue push, abort_push, pop under rely/guarantee), the queue representation (choose, size, empty, unbounded push / try_pop)."""
 import os
 import sys
 import re
@@ -144,10 +145,18 @@ def extract(ctx):
 def build(ctx):
     sliced, fired = extract(ctx)
     extract_lane(ctx, sliced, fired)
+    extract_rep(ctx, sliced, fired)
     C = os.path.join(HERE, 'c09.c')
     jobs = [
         Job('lane.push', C, 'h_lane_push', route='RG', defines=['LANE'], loops=True, nloops=1, target='micro_queue::push + prepare_page + spin_wait_until_my_turn + value_guard (any ticket, any page-size class, any number of concurrent pushes/pops)', source=QB, timeout=600),
         Job('lane.pop', C, 'h_lane_pop', route='RG', defines=['LANE'], loops=True, nloops=2, target='micro_queue::pop + assign_and_destroy_item + micro_queue_pop_finalizer + spin_wait_until_eq / spin_wait_while_eq', source=QB, timeout=600),
+        Job('lane.abort_push', C, 'h_lane_abort_push', route='RG', defines=['LANE'], loops=True, nloops=1, target='micro_queue::abort_push + prepare_page + spin_wait_until_my_turn', source=QB, timeout=600),
+        Job('lane.pop.invalid_page', C, 'h_lane_pop_invalid', route='LW', defines=['LANESEQ'], unwind=4, target='micro_queue::pop on a lane whose page allocation failed (invalidate_page ran): fault sequence, one thread', source=QB,
+            must_have=['C09.fault: pop of a ticket whose page allocation failed']),
+        Job('rep.choose', C, 'h_rep_choose', route='LF', defines=['REP'], target='concurrent_queue_rep::choose + index', source=QB),
+        Job('rep.push', C, 'h_cq_push', route='RG', defines=['REP'], target='concurrent_queue::internal_push (ticket by fetch-and-increment, lane by choose)', source=CQ),
+        Job('rep.try_pop', C, 'h_cq_try_pop', route='LF', defines=['REP'], target='concurrent_queue::internal_try_pop', source=CQ),
+        Job('rep.size_empty', C, 'h_rep_size', route='LF', defines=['REP'], target='concurrent_queue_rep::size / empty, concurrent_queue::unsafe_size (quiescent states, invalid entries, negative size)', source=QB),
         Job('ticket.lanes', C, 'h_lanes', route='LF', defines=['TICKET'], target='concurrent_queue_rep::index', source=QB),
         Job('ticket.slots', C, 'h_slots', route='LF', defines=['TICKET'], target='micro_queue slot computation (prepare_page/pop) + modulo_power_of_two + items_per_page', source=QB),
         Job('claim.try_pop', C, 'h_try_pop', route='RG', defines=['CLAIM'], loops=True, nloops=2, target='internal_try_pop_impl (ticket loop)', source=CQ),
@@ -159,15 +168,35 @@ def build(ctx):
     ]
     return {
         'jobs': jobs, 'sliced': sliced, 'fired': fired,
-        'trusted': ['micro_queue::push / pop (lane turnstiles, page hand-over): stubs', 'concurrent_monitor::wait/notify(predicate): notify(p) wakes exactly the sleepers whose context satisfies p; a sleeper re-evaluates its predicate before sleeping (C02, not applicable)', 'sequentially consistent atomics', 'rely: head_counter and tail_counter only grow, by the CAS / fetch_add of the same functions',
-                    'fewer than 2^62 tickets between head and tail (signed differences do not wrap)'],
-        'drops': ['std::pair result -> struct', 'allocator / forwarded argument packs dropped', 'memory orders'],
-        'not_decided': ['linearizability proper', 'micro-queue turnstiles and page hand-over', 'invalid-entry accounting on exceptions', 'blocking push/pop: the abort / exception paths (on_exception handlers) are dropped; the monitor itself is C02', 'unsafe_size / empty snapshots'],
-        'assumptions': ['atomics are sequentially consistent'],
+        'trusted': ['concurrent_monitor::wait/notify(predicate): notify(p) wakes exactly the sleepers whose context satisfies p; a sleeper re-evaluates its predicate before sleeping (C02, not applicable)',
+                    'sequentially consistent atomics', 'rely (claim.*, wake.*, rep.push): head_counter and tail_counter of the queue only grow, by the CAS / fetch_add of the same functions',
+                    'fewer than 2^62 tickets between head and tail (signed differences do not wrap)',
+                    'claim.* / wake.*: micro_queue::push / pop are stubs there; their behaviour is what lane.push / lane.pop / lane.abort_push prove',
+                    'lane.*: tickets are unique per lane turn (claim.*, wake.*, rep.push); the lane starts zero-initialised (both counters 0, no page), which satisfies the lane invariant',
+                    'lane.*: rely = any number of steps of the other pushes / abort_pushes / pops of the lane, i.e. havoc under the lane invariant with this call\'s own turn, page_mutex section, private page and (push) own cell kept; '
+                    'every guarantee asserted after each step of push / abort_push / pop is what that rely assumes of them (closed-world scan of the writers of lane state in _concurrent_queue_base.h)',
+                    'lane.*: page allocator (allocate / deallocate), padded_page constructor (next = nullptr, mask = 0: default member initialisers checked at extraction), element constructor / move-assignment / destructor: stubs',
+                    'lane.*: spin_mutex::scoped_lock is a mutual-exclusion section (C08 proves spin_mutex)',
+                    'lane.*: plain (non-atomic) accesses between two atomic steps are one step (no data race on them: the cell and mask word are owned by the turn holder, next links by the page_mutex holder)'],
+        'drops': ['std::pair result -> struct', 'allocator / forwarded argument packs dropped', 'memory orders', 'ITT notifications, atomic_backoff pauses -> RG_NOP',
+                  'try_call(body).on_exception(handler) -> { body; if (exception pending) { handler; rethrow } }; a callee that may throw is followed by an explicit exception edge',
+                  'raii_guard value_guard -> flag + its body (sliced as mq_push_value_guard) at every scope exit; micro_queue_pop_finalizer / destroyer objects -> constructor call at the declaration, destructor call at scope exit',
+                  'reference parameters / members / locals -> pointers; padded_page::operator[] -> padded_page_at; page field accesses -> accessor macros',
+                  'template instantiations: value_type := unsigned char (trivially copyable), items_per_page symbolic in {1,2,4,8,16,32}'],
+        'not_decided': ['linearizability proper (the lane contracts give: pop of ticket k delivers exactly what push of ticket k stored, once; ticket order is the real-time order of the fetch_add / CAS on the queue counters - the composition into a linearization is an argument, not a checked obligation)',
+                        'page allocation failure under concurrency: invalidate_page runs outside the failing push\'s turn (tail_counter made odd while older pushes of the lane are in flight); only the one-thread sequence is checked (lane.pop.invalid_page)',
+                        'blocking push/pop: the abort / exception paths (on_exception handlers, internal_abort) are dropped except micro_queue::abort_push itself; the monitor is C02',
+                        'size() / empty() while operations are in flight (only quiescent states are decided; empty() reads n_invalid_entries after its second read of tail_counter)',
+                        'copy / move construction, assign, clear, iterators (not thread-safe by contract)', 'termination of the spin loops; liveness'],
+        'assumptions': ['atomics are sequentially consistent', 'element type trivially copyable; an element constructor may throw, move-assignment and destructor do not',
+                        'lane.push / lane.pop / lane.abort_push: no page allocation has failed in the lane (tail_counter even); page allocation succeeds',
+                        'lane counters: the code uses them only in equality tests with its ticket and in `c & 1`; away from the ticket their numeric value is abstracted (any multiple of n_queue other than the ticket), the turn position is ghost state'],
     }
 
 
 def replay(ctx, jobname, failure):
+    if (jobname.startswith('lane.') or jobname.startswith('rep.')) and not jobname.startswith('lane.pop.invalid_page'):
+        return {'reproduced': False, 'detail': 'no native recipe: the lane windows (ticket taken / turn not yet handed on / page switch under page_mutex) need a thread stalled inside the library'}
     exe = native.build([os.path.join(HERE, 'c09_replay.cpp')], os.path.join(ctx.work, 'c09_replay'), flags=['-fno-access-control'], link_tbb=True)
     rc, out = native.run([exe, jobname], timeout=120)
     rep = {'cmd': exe + ' ' + jobname, 'rc': rc, 'output': out[-1500:], 'reproduced': False, 'detail': 'native recipes found no failing sequence'}
@@ -251,6 +280,22 @@ def extract_lane(ctx, sliced, fired):
                       (r'destroyer\( reference value \) : my_value\(value\) \{\}', 'destroyer constructor binds the item')):
         if not re.search(pat, qb):
             raise ExtractionBreak('_concurrent_queue_base.h: %s changed' % what)
+
+    # closed world: every writer of the lane state is among the functions under contract or listed as outside the concurrent protocol
+    writers = {}
+    mqtext = cxx2c.mask(qb)
+    for wm in re.finditer(r'\b(head_page|tail_page|head_counter|tail_counter)\s*\.\s*(store|fetch_add|fetch_sub|exchange|compare_exchange_\w+)\s*\(|(\+\+|--)\s*(?:\w+\.)?(head_counter|tail_counter)\b|\b(head_counter|tail_counter)\s*(\+\+|--|[-+]=)|->next\s*=[^=]', mqtext):
+        # enclosing function: the last preceding line that looks like a function header at class scope
+        hdrs = [h for h in re.finditer(r'\n    (?:[\w:<>\*&~]+\s+)*~?(\w+)\s*\([^;{}]*\)\s*(?:const\s*)?(?::[^{;]*)?\{', mqtext[:wm.start()])]
+        fn = hdrs[-1].group(1) if hdrs else '?'
+        writers[fn] = writers.get(fn, 0) + 1
+    # push / prepare_page / abort_push / the finalizer: under contract (lane.*); invalidate_page: failed page allocation (lane.pop.invalid_page, residue);
+    # assign / make_copy / clear: copy construction, assignment, clear() - documented as not thread-safe, outside the concurrent protocol
+    allowed = {'prepare_page': 3, 'push': 2, 'abort_push': 1, 'invalidate_page': 4, 'micro_queue_pop_finalizer': 3, 'assign': 15, 'clear': 6, 'make_copy': 1}
+    for fn, n_ in writers.items():
+        if fn not in allowed or n_ > allowed[fn]:
+            raise ExtractionBreak('_concurrent_queue_base.h: %d write(s) to lane state (counters, page pointers, next links) in %s(): not among the writers the lane proofs know (closed-world scan)' % (n_, fn))
+    rw.fired['closed-world scan: writers of lane state'] = sum(writers.values())
 
     def common(t, nm):
         t = rw.sub(t, r'queue_rep_type::n_queue', 'n_queue', 0, name='ns-strip')
@@ -360,8 +405,8 @@ def extract_lane(ctx, sliced, fired):
     t = rw.sub(t, r'(?s)auto value_guard = make_raii_guard\(\[&\] \{.*?\}\);', 'bool value_guard_active = true; /* raii_guard: body = mq_push_value_guard, run at every scope exit while active */', 1, 1, name='raii guard object -> flag (body sliced as mq_push_value_guard)')
     t = rw.sub(t, r'value_guard\.dismiss\(\);', 'value_guard_active = false;', 0, name='guard.dismiss()')
     t = rw.sub(t, r'size_type index = prepare_page\(k, base, page_allocator, p\);', 'size_type index = mq_prepare_page(self, k, base, page_allocator, &p); EXC_PROPAGATE();', 1, 1, name='method + ref-param (may throw: exception edge made explicit)')
-    t = rw.sub(t, r'page_allocator_traits::construct\(page_allocator, &\(\*p\)\[index\], std::forward<Args>\(args\)\.\.\.\);',
-               'STUB_construct_item(padded_page_at(p, index), args); if (EXC_PENDING()) { if (value_guard_active) mq_push_value_guard(self, base); return; }', 0, name='callee stub (element constructor; may throw: exception edge runs the guard)')
+    t = rw.sub(t, r'page_allocator_traits::construct\(page_allocator, &\(\*(\w+)\)\[([^\]]*)\], std::forward<Args>\(args\)\.\.\.\);',
+               r'STUB_construct_item(padded_page_at(\1, \2), args); if (EXC_PENDING()) { if (value_guard_active) mq_push_value_guard(self, base); return; }', 0, name='callee stub (element constructor; may throw: exception edge runs the guard)')
     # normal scope exit: the guard's destructor
     k_ = t.rstrip().rfind('}')
     t = t[:k_] + '    if (value_guard_active) mq_push_value_guard(self, base); /* ~raii_guard */\n' + t[k_:]
@@ -375,7 +420,7 @@ def extract_lane(ctx, sliced, fired):
     s = slice_block(QB, r'void abort_push\( ticket_type k, queue_rep_type& base, queue_allocator_type& allocator \)', within=MQ)
     sliced.append('%s:%d micro_queue::abort_push' % (QB, s.line))
     t = rw.sub(s.text, r'void abort_push\( ticket_type k, queue_rep_type& base, queue_allocator_type& allocator \)', 'static void mq_abort_push(struct micro_queue *self, ticket_type k, struct queue_rep *base, int *allocator)', 1, 1, name='sig')
-    t = rw.sub(t, r'prepare_page\(k, base, allocator, p\);', 'mq_prepare_page(self, k, base, 0, &p); EXC_PROPAGATE();', 1, 1, name='method + ref-param (may throw)')
+    t = rw.sub(t, r'prepare_page\(k, base, allocator, p\);', 'mq_prepare_page(self, k, base, 0, &p); EXC_PROPAGATE();', 0, None, name='method + ref-param (may throw)')
     t = rw.sub(t, r'\+\+base\.n_invalid_entries;', 'ATOMIC_PREINC(base->n_invalid_entries);', 0, name='atomic ++ (ref-param)')
     t = rw.fields(t, ['tail_counter'], 0)
     t = rw.atomics(t, ['tail_counter'], 0)
@@ -386,7 +431,7 @@ def extract_lane(ctx, sliced, fired):
     s = slice_block(QB, r'void assign_and_destroy_item\( void\* dst, padded_page& src, size_type index \)', within=MQ)
     sliced.append('%s:%d micro_queue::assign_and_destroy_item' % (QB, s.line))
     t = rw.sub(s.text, r'void assign_and_destroy_item\( void\* dst, padded_page& src, size_type index \)', 'static void mq_assign_and_destroy_item(struct micro_queue *self, void *dst, struct padded_page *src, size_type index)', 1, 1, name='sig')
-    t = rw.sub(t, r'auto& from = src\[index\];', 'value_type *from = padded_page_at(src, index);', 1, 1, name='reference local -> pointer; operator[]')
+    t = rw.sub(t, r'auto& from = src\[([^\]]*)\];', r'value_type *from = padded_page_at(src, \1);', 1, 1, name='reference local -> pointer; operator[]')
     t = rw.scoped_locks(t, r'destroyer \w+\(([^)]*)\);', 0, None, lock='DESTROYER_CTOR', unlock='DESTROYER_DTOR')
     t = rw.sub(t, r'std::move\(from\)', 'MOVE_FROM(from)', 0, name='std::move of the referenced item')
     t = rw.sub(t, r'static_cast<T\*>', 'static_cast<value_type*>', 0, name='bind-template')
@@ -453,3 +498,57 @@ def extract_lane(ctx, sliced, fired):
     common_mod = sys.modules['common']
     common_mod.write(ctx, 'lane.inc', common_write)
     fired['lane'] = rw.fired
+
+
+# =====================================================================================================================
+# concurrent_queue_rep::choose / size / empty, concurrent_queue::internal_push / internal_try_pop / unsafe_size (jobs rep.*)
+# =====================================================================================================================
+REPC = r'struct concurrent_queue_rep \{'
+CQC = r'class concurrent_queue \{'
+
+
+def extract_rep(ctx, sliced, fired):
+    rw = Rewriter('rep')
+    out = []
+    s = slice_block(QB, r'micro_queue_type& choose\( ticket_type k \)', within=REPC)
+    sliced.append('%s:%d concurrent_queue_rep::choose' % (QB, s.line))
+    t = rw.sub(s.text, r'micro_queue_type& choose\( ticket_type k \)', 'static struct lane *rep_choose(struct rep *self, ticket_type k)', 1, 1, name='sig (reference result -> pointer)')
+    t = rw.sub(t, r'return array\[(.*)\];', r'return &self->array[\1];', 1, 1, name='reference result -> pointer; field')
+    t = rw.sub(t, r'(?<![\w.>])index\(', 'rep_index(', 0, name='static method')
+    out.append(t)
+    for nm, sig, csig in (('empty', r'bool empty\(\) const', 'static bool rep_empty(const struct rep *self)'),
+                          ('size', r'std::ptrdiff_t size\(\) const', 'static ptrdiff_t rep_size(const struct rep *self)')):
+        s = slice_block(QB, sig, within=REPC)
+        sliced.append('%s:%d concurrent_queue_rep::%s' % (QB, s.line, nm))
+        t = rw.sub(s.text, sig, csig, 1, 1, name='sig')
+        t = rw.fields(t, ['head_counter', 'tail_counter', 'n_invalid_entries'], 1)
+        t = rw.atomics(t, ['head_counter', 'tail_counter', 'n_invalid_entries'], 1)
+        t = rw.asserts(t, 0)
+        t = rw.fcasts(t, ['std::ptrdiff_t'])
+        t = rw.std(t)
+        t = rw.number_sites(t, 'rep' + nm, by_kind=True)
+        out.append(t)
+    s = slice_block(CQ, r'size_type unsafe_size\(\) const', within=CQC)
+    sliced.append('%s:%d concurrent_queue::unsafe_size' % (CQ, s.line))
+    t = rw.sub(s.text, r'size_type unsafe_size\(\) const', 'static size_type cq_unsafe_size(const struct cqueue *self)', 1, 1, name='sig')
+    t = rw.sub(t, r'my_queue_representation->size\(\)', 'rep_size(self->my_queue_representation)', 1, 1, name='field + method')
+    t = rw.fcasts(t, ['size_type'])
+    t = rw.std(t)
+    out.append(t)
+    s = slice_block(CQ, r'void internal_push\( Args&&\.\.\. args \)', within=CQC)
+    sliced.append('%s:%d concurrent_queue::internal_push' % (CQ, s.line))
+    t = rw.sub(s.text, r'void internal_push\( Args&&\.\.\. args \)', 'static void cq_internal_push(struct cqueue *self)', 1, 1, name='sig + bind-pack(forwarded only)')
+    t = rw.sub(t, r'(?<![\w>*])my_queue_representation->', 'self->my_queue_representation->', 1, name='field')
+    t = rw.atomics(t, ['tail_counter'], 0)
+    t = rw.sub(t, r'self->my_queue_representation->choose\(([^()]*)\)\.push\(([^,()]*), \*my_queue_representation, my_allocator, std::forward<Args>\(args\)\.\.\.\);',
+               r'STUB_lane_push_on(rep_choose(self->my_queue_representation, \1), \2);', 0, name='callee stub (micro_queue::push, proved in lane.push) on the lane chosen by choose()')
+    t = rw.std(t)
+    t = rw.number_sites(t, 'cqpush', by_kind=True)
+    out.append(t)
+    s = slice_block(CQ, r'bool internal_try_pop\( void\* dst \)', within=CQC)
+    sliced.append('%s:%d concurrent_queue::internal_try_pop' % (CQ, s.line))
+    t = rw.sub(s.text, r'bool internal_try_pop\( void\* dst \)', 'static bool cq_internal_try_pop(struct cqueue *self, void *dst)', 1, 1, name='sig')
+    t = rw.sub(t, r'internal_try_pop_impl\(dst, \*my_queue_representation, my_allocator\)', 'STUB_try_pop_impl(self->my_queue_representation)', 1, 1, name='callee under its proved contract (claim.try_pop)')
+    out.append(t)
+    common.write(ctx, 'rep.inc', '\n'.join(out) + '\n')
+    fired['rep'] = rw.fired
